@@ -111,6 +111,17 @@ CHECKS = {
         'Correspondence: exhaustive item sequences on a fixed ontology + random multi-parent ontologies, all item forms, all validator combinations.',
         'Trusted: as C01 and C06; message wording parsed by the harness (CURIEs in brackets, state word).',
         '§4 C11'),
+    'C13': (
+        'Coq proof (for every decision oracle: the clustering loop keeps every leaf, in-order leaves are a rearrangement of the input, positions are handed out once) + per-run vm_compute correspondence that replays the decisions of each real argsort run through the model',
+        'Machine-checked theorems for EVERY decision oracle (= every similarity measure, every tie-break of argmax, every epsilon outcome) and every non-empty '
+        'id sequence, repeats allowed: the clustering loop ends with one tree whose tagged leaves in order are a rearrangement of the input ids; '
+        '_find_indices then returns each position 0..n-1 exactly once and indexing the input with the result yields exactly that order; a single item '
+        'gives (0,); the empty sequence raises. Ids enter only through equality, so TermIds and identified objects agree, and the model is a function, so '
+        'repeated calls agree. Correspondence: edge-distance, IC (injective/zero/tied/negative) and a scripted arbitrary measure on random DAGs; the '
+        'decisions of the real loop are recorded and replayed - the index tuple must be identical - and the property predicate is evaluated on every output.',
+        'Trusted: Coq kernel + vm_compute; numpy argmax and the similarity measures are not modelled (quantified over); argmax is wrapped from the harness to '
+        'record decisions. Repeated ids gave repeated positions: genuine defect fixed in /repo (fix: 9d9fa05).',
+        '§4 C13'),
     'C15': (
         'Coq proof (refinement of the nested-dict container to a map on unordered pairs by induction over histories; structural invariant for items/len; metadata codec round trip at string level) + per-run vm_compute correspondence and an executed CSV round trip',
         'Machine-checked theorems for EVERY history of set_similarity calls and any value type with a zero and a sign test: get(a,b) = get(b,a) = the last '
